@@ -1,4 +1,14 @@
 """Registry: which contract modules (deductive leg) and which native legs decide each property."""
+PY310 = "/root/.pyenv/versions/3.10.13/bin/python"
+PY39 = "/root/.pyenv/versions/3.9.18/bin/python"
+
+
+def old_pythons(name, script):
+    """the same leg on CPython 3.10 and 3.9 (vendored typing_extensions / exceptiongroup): version-specific branches and APIs"""
+    return [dict(name=f"{name}_py310", cmd="PYTHONPATH={repo}:{verif}/.vendor " + PY310 + " legs/" + script),
+            dict(name=f"{name}_py39", cmd="PYTHONPATH={repo}:{verif}/.vendor " + PY39 + " legs/" + script)]
+
+
 PY312 = "/venv/bin/python"
 PY311 = "python3-vt"
 
@@ -26,7 +36,7 @@ EI_NOTE = ("trusted: pyvc executor/encoding, z3/cvc5; hooks modelled as oracles 
 PROPS["C05"] = dict(
     level="other", contracts=["contracts.extract_iter", "contracts.c13"],
     unit_filter=lambda u: u.name in ("C05.extract_iter", "C13.extract_child", "C13.extract"),
-    legs=[dict(name="c05_faults", cmd="PYTHONPATH={repo} " + PY312 + " legs/c05_faults.py")], technique=TECH + "; bounded fault-enumeration leg",
+    legs=[dict(name="c05_faults", cmd="PYTHONPATH={repo} " + PY312 + " legs/c05_faults.py")] + old_pythons("c05_faults", "c05_faults.py"), technique=TECH + "; bounded fault-enumeration leg",
     explanation="Deductive part (all inputs, unbounded): extract_iter (whole real body, 8 loops cut by invariants), extract_child and extract "
                 "are executed symbolically from their entries: no path lets an Exception escape, the error ledger grows by exactly the "
                 "exceptions raised in order, extract_child turns it into None / the single error / an ExceptionGroup, an elaborate_frame "
@@ -82,7 +92,7 @@ PROPS["C13"] = dict(
 PROPS["C16"] = dict(
     level="other", contracts=["contracts.c16", "contracts.extract_iter", "contracts.c13"],
     unit_filter=lambda u: u.name in ("C16.better_origin", "C05.extract_iter", "C13.extract_outermost"),
-    legs=[dict(name="chains_C16", cmd="PYTHONPATH={repo} " + PY312 + " legs/chains.py C16")], technique=TECH,
+    legs=[dict(name="chains_C16", cmd="PYTHONPATH={repo} " + PY312 + " legs/chains.py C16")] + old_pythons("chains_C16", "chains.py C16"), technique=TECH,
     explanation="Deductive part (all inputs): better_origin's result is characterised exactly; at the only place a Frame is built in "
                 "extract_iter a non-None origin is a weak-referenceable generator-like object whose own gi_frame / cr_frame / ag_frame IS "
                 "that frame, a generator-like origin arriving with its own frame is kept, queue entries carry such an item as its own "
@@ -100,7 +110,8 @@ PROPS["C16"] = dict(
 PROPS["C03"] = dict(
     level="other", contracts=["contracts.extract_iter", "contracts.small_units", "contracts.glue_small"],
     unit_filter=lambda u: u.name.startswith("C03.") or u.name == "C05.extract_iter",
-    legs=[dict(name="chains_C03", cmd="PYTHONPATH={repo} " + PY312 + " legs/chains.py C03")], technique=TECH + "; bounded throw-oracle leg for the interpreter axioms",
+    legs=[dict(name="chains_C03", cmd="PYTHONPATH={repo} " + PY312 + " legs/chains.py C03"),
+          dict(name="chains_C03_py311", cmd="PYTHONPATH={repo} " + PY311 + " legs/chains.py C03")] + old_pythons("chains_C03", "chains.py C03"), technique=TECH + "; bounded throw-oracle leg for the interpreter axioms",
     explanation="Deductive part: the five built-in unwrappers are proved against their contracts (suspended: (own frame, delegate); running: "
                 "StackSlice(outer=own frame); async generators running only when ag_await is None; asend/athrow and coroutine_wrapper: first "
                 "referent with ag_frame/cr_frame), Frame.__post_init__ captures f_lineno, extract_child's root rule, and extract_iter's queue "
@@ -114,7 +125,7 @@ PROPS["C03"] = dict(
     note=EI_NOTE + "; CPython object-model axioms assumed for the composition; exact DFS-flattening lemma (C03.flatten) not machine-checked")
 PROPS["C17"] = dict(
     level="other", contracts=["contracts.c17"], static=["contracts.c17_static"],
-    legs=[dict(name="c17_history", cmd="PYTHONPATH={repo} " + PY312 + " legs/c17_history.py")], technique=TECH + "; bounded history leg",
+    legs=[dict(name="c17_history", cmd="PYTHONPATH={repo} " + PY312 + " legs/c17_history.py")] + old_pythons("c17_history", "c17_history.py"), technique=TECH + "; bounded history leg",
     explanation="Deductive part (all inputs, unbounded): the scan loop of add_glue_as_needed is cut by an invariant with a per-iteration step "
                 "clause — the built-in entry is popped from the pending table before any call, the module's function is popped from the "
                 "module dict, at most one glue function is called per module and it is the module's when it has one, every Exception of a "
@@ -150,8 +161,6 @@ PROPS["C04"] = dict(
           "composition checked on an exhaustive bounded cross product.",
     note="frames of one stack are pairwise distinct; list.index on frames is identity; f_back of a frame is None or a frame; the "
          "other-thread search loop (sys._current_frames) is not under contract")
-PY310 = "/root/.pyenv/versions/3.10.13/bin/python"
-PY39 = "/root/.pyenv/versions/3.9.18/bin/python"
 
 
 def g1(mode, py, tag, depth=2, thorough_only=False, stride=None, vendor=False):
@@ -237,7 +246,7 @@ PROPS["C06"] = dict(
 PROPS["C18"] = dict(
     level="exploration", contracts=["contracts.types_fmt"], unit_filter=lambda u: u.name.startswith("C18."),
     legs=[dict(name="trees_C18", cmd="PYTHONPATH={repo} " + PY312 + " legs/trees.py C18"),
-          dict(name="trees_C18_py311", cmd="PYTHONPATH={repo} " + PY311 + " legs/trees.py C18", thorough_only=True)],
+          dict(name="trees_C18_py311", cmd="PYTHONPATH={repo} " + PY311 + " legs/trees.py C18", thorough_only=True)] + old_pythons("trees_C18", "trees.py C18"),
     technique="bounded contract check: decoder (parse) applied to format() of generated Stack trees must return the tree's shape; "
               "string obligations of the line grammar are not discharged deductively (see DESIGN.md: fallback B taken)",
     explanation="Deductive sub-lemmas: Formattable.format passes each public flag in its own field of one FormatOptions object and returns _format's lines unchanged; __str__ is ''.join(self.format()) with default options; Stack._format (string obligations, z3 sequences): the result is the header, then for every frame that is not (hidden and not show_hidden_frames), in order, that frame's lines each prefixed by the start-of-frame marker (first line) or the continuation marker (others) selected by ascii_only, then the leaf line (marker + repr + newline) iff there is a leaf, then the error lines iff there is an error; nothing else, no frame line dropped or reordered (ghost owner / offset functions). Frame._format / Context._format and the decodability of the composed prefixes are decided by the bounded leg only (fallback B of DESIGN.md).",
@@ -250,7 +259,7 @@ PROPS["C18"] = dict(
 PROPS["C19"] = dict(
     level="other", contracts=["contracts.types_fmt"], unit_filter=lambda u: u.name.startswith("C19."),
     legs=[dict(name="trees_C19", cmd="PYTHONPATH={repo} " + PY312 + " legs/trees.py C19"),
-          dict(name="trees_C19_py311", cmd="PYTHONPATH={repo} " + PY311 + " legs/trees.py C19", thorough_only=True)],
+          dict(name="trees_C19_py311", cmd="PYTHONPATH={repo} " + PY311 + " legs/trees.py C19", thorough_only=True)] + old_pythons("trees_C19", "trees.py C19"),
     technique=TECH + "; bounded leg against an executable structural specification",
     explanation="Deductive part (all inputs): the three summary generators are verified as producers (ghost output = list of segments, one per "
                 "`yield` / `yield from`), each callee an abstract sequence given by an uninterpreted function of its arguments: "
@@ -272,7 +281,7 @@ PROPS["C19"] = dict(
 PROPS["C09"] = dict(
     level="other", contracts=["contracts.glue_small", "contracts.c11"],
     unit_filter=lambda u: u.name.startswith("C09.") or u.name.startswith("C11.fill_context"),
-    legs=[dict(name="c09_trees", cmd="PYTHONPATH={repo} " + PY312 + " legs/c09_trees.py")], technique=TECH + "; bounded registration-sequence leg",
+    legs=[dict(name="c09_trees", cmd="PYTHONPATH={repo} " + PY312 + " legs/c09_trees.py")] + old_pythons("c09_trees", "c09_trees.py"), technique=TECH + "; bounded registration-sequence leg",
     explanation="Deductive part (all inputs): elaborate_generatorbased_contextmanager sets inner_stack = extract_child(mgr.gen, for_task=False) "
                 "iff the context is not exiting and always a description, touching nothing else; elaborate_exit_stack's loop is cut by an "
                 "invariant (children attached up front, one child appended per callback at position idx = registration order, fill_context run "
